@@ -44,28 +44,38 @@ impl Printer {
         mut out: impl Write,
         print_error_message: bool,
     ) {
-        match write!(
+        let written = write!(
             out,
             "{}{}",
             file_info.path().to_string_lossy(),
             self.delimiter
-        ) {
-            Ok(_) => {}
-            Err(e) => {
-                if print_error_message {
-                    writeln!(
-                        &mut stderr(),
-                        "Error writing {:?} for {}",
-                        file_info.path().to_string_lossy(),
-                        e
-                    )
-                    .unwrap();
-                    matcher_io.set_exit_code(1);
-                }
-            }
+        )
+        .and_then(|()| out.flush());
+        if let Err(e) = written {
+            report_write_error(file_info, &e, matcher_io, print_error_message);
         }
-        out.flush().unwrap();
     }
+}
+
+/// An entry could not be written: the run fails, but must not panic. When the reader of a
+/// pipe has gone there is nobody left to print for, so the walk ends quietly.
+pub(crate) fn report_write_error(
+    file_info: &WalkEntry,
+    error: &std::io::Error,
+    matcher_io: &mut MatcherIO,
+    to_file: bool,
+) {
+    matcher_io.set_exit_code(1);
+    if !to_file && error.kind() == std::io::ErrorKind::BrokenPipe {
+        matcher_io.quit();
+        return;
+    }
+    let _ = writeln!(
+        &mut stderr(),
+        "Error writing {:?} for {}",
+        file_info.path().to_string_lossy(),
+        error
+    );
 }
 
 impl Matcher for Printer {
